@@ -46,6 +46,14 @@ impl Vm {
                         self.ip,
                         self.acc.clone(),
                     ));
+                    // The evaluation is abandoned: return the registers and the stack to their
+                    // idle state, so that the frames of the failed evaluation neither pile up
+                    // under later evaluations nor show up in their stack traces.
+                    self.stack.clear();
+                    *self.stack.get_sp_mut() = 0;
+                    self.bp = 0;
+                    self.ep = usize::MAX;
+                    self.acc = VCell::Undefined;
                     return Err(e);
                 }
             }
